@@ -21,6 +21,7 @@ var families = map[string]func(*h.Run){
 	"C10": props.C10,
 	"C12": props.C12,
 	"C16": props.C16,
+	"C17": props.C17,
 	"C18": props.C18,
 	"C19": props.C19,
 }
